@@ -158,6 +158,11 @@ class SyncCrazyflie:
         self._is_link_open = False
         if self._disconnect_event:
             self._disconnect_event.set()
+        if self._connect_event:
+            # The link was lost before the connection was fully set up, do not
+            # leave open_link() waiting for ever
+            self._error_message = 'Disconnected while connecting'
+            self._connect_event.set()
 
     def _all_params_updated(self, link_uri):
         self._params_updated_event.set()
